@@ -158,7 +158,8 @@ impl Sim {
     }
 
     fn has_nan(&mut self, h: HandleId) -> bool {
-        if !self.cfg.allow_nan {
+        // with hashable-value (the `ts` build) NaN == NaN: equality is required unconditionally
+        if cfg!(feature = "ts") || !self.cfg.allow_nan {
             return false;
         }
         let m = self.model.get_mut(&h).unwrap();
@@ -931,10 +932,10 @@ impl Sim {
 }
 
 pub fn ctor_refs(c: &Ctor) -> Vec<(HandleId, SubMode)> {
-    match c {
-        Ctor::CteFromSelect(Sub::Handle { h, mode }) => vec![(*h, *mode)],
-        _ => vec![],
+    if matches!(c, Ctor::Default) {
+        return vec![];
     }
+    crate::model::json_refs(&serde_json::to_value(c).unwrap())
 }
 
 // ------------------------------------------------------------------------------------------
